@@ -194,8 +194,6 @@ Definition mon_C01 := mon_run c01_step [].
 (* ghost: distributed leaves (distribution, index) *)
 Definition g02 := list (key * N).
 Definition distributed (g : g02) (dk : key) (idx : N) : bool := existsb (fun '(k, i) => key_eqb k dk && (i =? idx)) g.
-Fixpoint dedup_keys (l : list key) : list key :=
-  match l with [] => [] | k :: tl => if existsb (key_eqb k) tl then dedup_keys tl else k :: dedup_keys tl end.
 (* expected per-ATA credit: the sum over the recipient entries that name this ATA *)
 Definition expected_credit (recips : list (key * N)) (remainder : N) (ata : key) : N :=
   sumN (map (fun '(r, s) => if key_eqb (KAta r KMint) ata then s * remainder / 10000 else 0) recips).
